@@ -363,6 +363,16 @@ let check_tokens (cfg : econfig) (ops : eop list) (tr : tok list) : unit =
               | Some r -> if r.r_status = s && not (rs_finished r.r_state) then bad "C12" "timer %d cancelled although its run still waits at status %d" (zi id) (zi s)
               | None -> ())
            | TTEnd (KTM, id, _) -> if not !stored then bad "C12" "timer %d completed without a stored timeout transition" (zi id)
+           | _ -> ()) seg;
+         (* "a failing timeout function is retried on later polls": until the next invocation, a timeout function that returned an
+            error (whatever status it returned alongside) is followed by no status change of its run and by no timer completion *)
+         let failed_fn = ref None in
+         List.iter (function
+           | TUser (UFTimeout _, view, _, _, UErr _) -> failed_fn := Some view.r_run
+           | TUser (fu, _, _, _, _) when is_step_fn fu -> failed_fn := None
+           | TStore (Some p, r, a) when eff a && !failed_fn = Some r.r_run && zi r.r_status <> zi p.r_status ->
+             bad "C12" "run %d: the timeout function returned an error, yet a transition to status %d was stored (the failure is not retried)" (ni r.r_run) (zi r.r_status)
+           | TTEnd (KTM, id, ROk) when !failed_fn <> None -> bad "C12" "timer %d was marked completed although its timeout function returned an error" (zi id)
            | _ -> ()) seg
        end
      | _ -> ());
@@ -428,9 +438,10 @@ let check_tokens (cfg : econfig) (ops : eop list) (tr : tok list) : unit =
             && not (List.exists (function TApi _ -> true | _ -> false) seg) then
            bad (if on "C07" then "C07" else "C11") "a step / timer function returned an error, yet its consumer never reached the error back-off (the failure was taken for a lost role: the event is re-handled at once)"
        | _ -> ());
-    (* C11: every store / stream / timeout-store call of a background process is made under the context its role scheduler
-       handed out (the harness marks a call that carried any other context with API=-2) *)
-    (if on "C11" || on "C12" || on "C20" then
+    (* C11, and every other property of the engine, whose theorems all rest on it: every store / stream / timeout-store call of a
+       background process is made under the context its role scheduler handed out (the harness marks a call that carried any
+       other context with API=-2): a lost role stops the work *)
+    (if true then
        match unit_of_op with
        | Some _ when List.exists (function TApi z -> zi z = -2 | _ -> false) seg ->
          bad (if on "C11" then "C11" else prop) "a background process made an adapter call that was not under the context handed out by its role scheduler"
@@ -511,6 +522,17 @@ let check_tokens (cfg : econfig) (ops : eop list) (tr : tok list) : unit =
        | Some _ when List.exists (function TApi z -> zi z = -1 | _ -> false) seg ->
          bad (if on "C11" then "C11" else prop) "a background process terminated while the workflow is running (it never asks for its role again)"
        | _ -> ());
+    (* C14 / C15 / C12: "the hook registered for that state is invoked at least once", "a deletion request is served", "a due timer
+       fires" each need their consumer to exist: a hook / delete / timeout process that is configured but absent while the workflow
+       is running (the harness finds no process to schedule: API=-1) never does its work *)
+    (match unit_of_op with
+     | Some (_, EHook _) when on "C14" && List.exists (function TApi z -> zi z = -1 | _ -> false) seg ->
+       bad "C14" "a hook is registered but no process consumes the run-state-change topic for it: the hook is never invoked"
+     | Some (_, EDelete) when on "C15" && List.exists (function TApi z -> zi z = -1 | _ -> false) seg ->
+       bad "C15" "no process consumes the deletion topic: a deletion request is never served"
+     | Some (_, EPoller _) when on "C12" && List.exists (function TApi z -> zi z = -1 | _ -> false) seg ->
+       bad "C12" "a timeout is configured but its poller process does not exist: a due timer never fires"
+     | _ -> ());
     (* C11: calls under the lease — every failed lease (can) is followed by no successful context call *)
     (if on "C11" then
        let lost = ref false in
@@ -542,9 +564,17 @@ let check_tokens (cfg : econfig) (ops : eop list) (tr : tok list) : unit =
      end);
     (* C09: trigger = one store or none *)
     (match op with
-     | OTrigger (fid, _, _, _) when on "C09" ->
+     | OTrigger (fid, start, _, _) when on "C09" ->
        let stores = List.filter (function TStore _ -> true | _ -> false) seg in
        let api_ok = List.exists (function TApi z -> zi z = 0 | _ -> false) seg in
+       (* an explicitly requested starting status (anything but 0): the run is created at THAT status, and only if the workflow
+          declares it — an undeclared request (negative ones included) is an error and writes nothing *)
+       if zi start <> 0 then
+         List.iter (function
+           | TStore (_, r, _) ->
+             if not (is_valid g start) then bad "C09" "Trigger wrote a run although the requested starting status %d is not declared" (zi start)
+             else if zi r.r_status <> zi start then bad "C09" "Trigger created the run at status %d although status %d was requested" (zi r.r_status) (zi start)
+           | _ -> ()) stores;
        if List.length stores > 1 then bad "C09" "Trigger wrote %d records" (List.length stores);
        if api_ok && List.length stores <> 1 then bad "C09" "Trigger succeeded without writing exactly one record";
        List.iter (function
